@@ -41,6 +41,10 @@ impl Neighborhood<TransitionCycleWithInfo> for TransitionCycleNeighborhood {
     ) -> Box<dyn Iterator<Item = TransitionCycleWithInfo> + Send + Sync + 'a> {
         let cycle = transition_cycle_with_info.get_cycle();
         let cycle_length = cycle.len();
+        if cycle_length < 3 {
+            // no 3-opt move exists; `cycle_length - 2` would underflow
+            return Box::new(std::iter::empty());
+        }
         Box::new((0..cycle_length - 2).flat_map(move |i| {
             (i + 1..cycle_length - 1).flat_map(move |j| {
                 (j + 1..cycle_length).map(move |k| {
